@@ -113,7 +113,7 @@ def model_params(cfg, max_conn=6, pinned=()):
     return {"node": {"host": nc["host"], "realm": nc["realm"], "idle": nc["idle"], "dwa": nc["dwa"], "cer": nc["cer"],
                      "cea": nc["cea"], "wakeup": nc["wakeup"], "retx": nc["retx"], "validate": nc["validate"], "samehbh": bool(nc.get("samehbh")),
                      # what the node says about itself (World sets these explicitly): content clauses of Mon_C06 / Mon_C11 / Mon_C20
-                     "listen": bool(nc.get("listen", True)), "ips": ["10.0.0.1"], "vendor": NODE_VENDOR, "product": NODE_PRODUCT, "osi": NODE_OSI},
+                     "listen": bool(nc.get("listen", True)), "ips": ["10.0.0.%d" % (i + 1) for i in range(nc.get("nlisten", 1))], "vendor": NODE_VENDOR, "product": NODE_PRODUCT, "osi": NODE_OSI},
             "peerOrder": order, "peers": peers, "appOrder": aorder, "apps": apps, "maxConn": max_conn, "pinned": list(pinned),
             # other spellings of the peers' names the environment may use in a CER (identities are case-insensitive)
             "canon": {h.upper(): h for h in order if h.upper() != h}}
